@@ -1133,6 +1133,9 @@ class Exec:
             return z3.Or([self.eq(item, x, line) for x in container.items] or [z3.BoolVal(False)])
         if isinstance(container, Obj) and container.cls == "dict":
             return self.map_has(container, item, line)
+        if isinstance(container, Obj) and container.cls == "pyset":
+            f = self.w.ufun("set_member", self.S.Py, self.S.Py, z3.BoolSort())
+            return f(container.attrs["id"].t, self.to_py(item))
         if isinstance(container, Z):
             if container.t.sort() == S.PyList:
                 return S.contains(container.t, self.to_py(item))
